@@ -88,7 +88,8 @@ class C10(Prop):
             rc = lib.classify(data[:-1] if entry < 2 else data)
             seen = {}
             for rq, want_end in combos:
-                po = lib.parse(entry, data, (rq + want_end + case["rseed"]) & 1, rq, want_end)
+                # cJSON_bool is an int: every non-zero value requires termination
+                po = lib.parse(entry, data, (rq + want_end + case["rseed"]) & 1, rq and (1, 2, -1, 256)[(case["rseed"] >> 3) & 3], want_end)
                 stats.inner += 1
                 accepted = bool(po.tree)
                 seen[(rq, want_end)] = (accepted, po.end_off)
